@@ -3,6 +3,7 @@
 (* Spec -> code generator for C19: every history of at most MaxLen calls   *)
 (* on an operation schema and its environment, starting from a preset      *)
 (*   "empty"   nothing (structure: insert, erase, connect, define, run)    *)
+(*   "grid"    nothing; layout only (insert, erase, shift, load position)  *)
 (*   "chain"   b1 b2 b3, l1 = merge(b1,b2), l2 = merge(l1,b3), all run     *)
 (*   "diamond" b1 b2 b3, l1 = merge(b1,b2), l2 = merge(b2,b3),             *)
 (*             top = merge(l1,l2), all run                                 *)
@@ -27,7 +28,7 @@ EX(p) == [Op("Execute") EXCEPT !.p = p]
 ChainPrefix == <<IB(1), IB(2), IB(3), CN(1, 101, 1), CN(2, 102, 1), CN(3, 103, 1), IO(4, 1, 2), IO(5, 4, 3),
                  IF_(4, "merge", -1), IF_(5, "merge", -1), EX(4), EX(5)>>
 Prefix ==
-  CASE Preset = "empty" -> <<>>
+  CASE Preset \in {"empty", "grid"} -> <<>>
     [] Preset = "chain" -> <<IB(1), IB(2), IB(3), CN(1, 101, 1), CN(2, 102, 1), CN(3, 103, 1), IO(4, 1, 2), IO(5, 4, 3),
                              IF_(4, "merge", -1), IF_(5, "merge", -1), EX(4), EX(5)>>
     [] Preset = "diamond" -> <<IB(1), IB(2), IB(3), CN(1, 101, 1), CN(2, 102, 2), CN(3, 103, 1), IO(4, 1, 2), IO(5, 2, 3), IO(6, 4, 5),
@@ -35,13 +36,14 @@ Prefix ==
     \* "stale": the chain with b3 changed and announced (l2 outdated) and l2's result source read-only
     [] Preset = "stale" -> ChainPrefix \o <<[Op("Edit") EXCEPT !.p = 3, !.kind = "addBase"], [Op("Save") EXCEPT !.p = 3], [Op("Lock") EXCEPT !.p = 5]>>
     [] Preset = "synt" -> <<IB(1), IB(2), CN(1, 101, 2), CN(2, 102, 1), IO(3, 1, 2), IF_(3, "synt", 1), EX(3), IO(4, 3, 1), IF_(4, "merge", -1), EX(4)>>
-PrefixPicts == CASE Preset = "stale" -> 5 [] Preset = "empty" -> 0 [] Preset = "chain" -> 5 [] Preset = "diamond" -> 6 [] Preset = "synt" -> 4
-PrefixSrcs == CASE Preset = "stale" -> 103 [] Preset = "empty" -> 100 [] Preset = "chain" -> 103 [] Preset = "diamond" -> 103 [] Preset = "synt" -> 102
+PrefixPicts == CASE Preset = "grid" -> 0 [] Preset = "stale" -> 5 [] Preset = "empty" -> 0 [] Preset = "chain" -> 5 [] Preset = "diamond" -> 6 [] Preset = "synt" -> 4
+PrefixSrcs == CASE Preset = "grid" -> 100 [] Preset = "stale" -> 103 [] Preset = "empty" -> 100 [] Preset = "chain" -> 103 [] Preset = "diamond" -> 103 [] Preset = "synt" -> 102
 
 Init == oss = ApplyAll(EmptyOSS, Prefix, 1) /\ hist = <<>> /\ nextPict = PrefixPicts + 1 /\ nextSrc = PrefixSrcs + 1
 Step(c) == oss' = Apply(oss, c) /\ hist' = Append(hist, c)
 BothBases(p) == oss.par[oss.par[p][1]] = <<>> /\ oss.par[oss.par[p][2]] = <<>>
-Structural == Preset = "empty"
+Structural == Preset \in {"empty", "grid"}
+GridOnly == Preset = "grid"          \* layout only: insert, erase, shift, load position
 Next ==
   /\ Len(hist) < MaxLen
   /\ \/ /\ Structural /\ Cardinality(Picts(oss)) < MaxPict
@@ -50,19 +52,22 @@ Next ==
         /\ \E a \in Picts(oss) \cup {9}, b \in Picts(oss) : Step(IO(nextPict, a, b))
         /\ nextPict' = nextPict + 1 /\ UNCHANGED nextSrc
      \/ /\ \E p \in Picts(oss) \cup {9} : Step([Op("Erase") EXCEPT !.p = p]) /\ UNCHANGED <<nextPict, nextSrc>>
-     \/ /\ \E p \in {x \in Picts(oss) : ~IsOp(oss, x)}, n0 \in (IF Structural THEN {1} ELSE {1, 2}) : Step(CN(p, nextSrc, n0))
+     \/ /\ GridOnly /\ \E p \in Picts(oss) \cup {9}, k \in {-1, 1, 2} : Step([Op("ShiftPict") EXCEPT !.p = p, !.n = k]) /\ UNCHANGED <<nextPict, nextSrc>>
+     \/ /\ GridOnly /\ \E p \in Picts(oss), r \in 0..1, cc \in 0..2 : CanLoadPosition(oss, p, <<r, cc>>) /\ Step([Op("LoadPosition") EXCEPT !.p = p, !.a = r, !.b = cc])
+        /\ UNCHANGED <<nextPict, nextSrc>>
+     \/ /\ ~GridOnly /\ \E p \in {x \in Picts(oss) : ~IsOp(oss, x)}, n0 \in (IF Structural THEN {1} ELSE {1, 2}) : Step(CN(p, nextSrc, n0))
         /\ nextSrc' = nextSrc + 1 /\ UNCHANGED nextPict
      \/ /\ \E p \in Picts(oss), k \in {"addBase", "removeBase", "text", "userTerm"} :
-             CanEdit(oss, p, k) /\ (k = "text" => Preset \in {"empty", "chain"} /\ (Structural \/ p \in {1, 4})) /\ Step([Op("Edit") EXCEPT !.p = p, !.kind = k])
+             ~GridOnly /\ CanEdit(oss, p, k) /\ (k = "text" => Preset \in {"empty", "chain"} /\ (Structural \/ p \in {1, 4})) /\ Step([Op("Edit") EXCEPT !.p = p, !.kind = k])
         /\ UNCHANGED <<nextPict, nextSrc>>
-     \/ /\ \E p \in Picts(oss) : oss.hand[p].linked /\ Step([Op("Save") EXCEPT !.p = p]) /\ UNCHANGED <<nextPict, nextSrc>>
+     \/ /\ \E p \in Picts(oss) : ~GridOnly /\ oss.hand[p].linked /\ Step([Op("Save") EXCEPT !.p = p]) /\ UNCHANGED <<nextPict, nextSrc>>
      \/ /\ \E p \in DOMAIN oss.oper, t \in {<<"merge", -1>>, <<"synt", 0>>, <<"synt", 1>>, <<"synt", -1>>, <<"merge", 0>>} :
-             (t[2] = 1 => BothBases(p)) /\ (t \in {<<"synt", -1>>, <<"merge", 0>>} => Structural) /\ Step(IF_(p, t[1], t[2]))
+             ~GridOnly /\ (t[2] = 1 => BothBases(p)) /\ (t \in {<<"synt", -1>>, <<"merge", 0>>} => Structural) /\ Step(IF_(p, t[1], t[2]))
         /\ UNCHANGED <<nextPict, nextSrc>>
      \/ /\ \E p \in DOMAIN oss.oper : HasData(oss, p) /\ ~DataOf(oss, p).locked /\ Preset \in {"chain", "stale"}
              /\ Step([Op("Lock") EXCEPT !.p = p]) /\ UNCHANGED <<nextPict, nextSrc>>
-     \/ /\ \E p \in DOMAIN oss.oper : Step(EX(p)) /\ UNCHANGED <<nextPict, nextSrc>>
-     \/ /\ DOMAIN oss.oper # {} /\ Step(Op("ExecuteAll")) /\ UNCHANGED <<nextPict, nextSrc>>
+     \/ /\ \E p \in DOMAIN oss.oper : ~GridOnly /\ Step(EX(p)) /\ UNCHANGED <<nextPict, nextSrc>>
+     \/ /\ ~GridOnly /\ DOMAIN oss.oper # {} /\ Step(Op("ExecuteAll")) /\ UNCHANGED <<nextPict, nextSrc>>
      \* save the document, close everything, load it with the items rotated by n, re-open the sources
      \/ /\ Picts(oss) # {} /\ AllSaved(oss) /\ (IF hist = <<>> THEN TRUE ELSE hist[Len(hist)].op # "Reload")
         /\ \E n \in {0, 1, 2} : Step([Op("Reload") EXCEPT !.n = n]) /\ UNCHANGED <<nextPict, nextSrc>>
